@@ -42,8 +42,8 @@ for d in sorted(glob.glob(V + "/seeded/*")):
     counts[det] = counts.get(det, 0) + 1
     rows.append("| %s | %s | %s |" % (os.path.basename(d), det, (mm.get("note") or "").replace("|", "/")))
 gen["seeded"] = "\n".join(rows)
-gen["seededcounts"] = "%d changes: %d detected at once, %d detected only after the check was strengthened (the note says what was missing), %d obsolete (written against the tree before a repair after which they no longer apply or no longer break the property)." % (
-    sum(counts.values()), counts.get("yes", 0), counts.get("after-strengthening", 0), counts.get("obsolete", 0))
+gen["seededcounts"] = "%d changes: %d detected at once, %d detected only after the check was strengthened (the note says what was missing), %d not detected by the check of their property or not confirmed (round 4; the note says why, and which other check reports them), %d obsolete (written against the tree before a repair after which they no longer apply or no longer break the property)." % (
+    sum(counts.values()), counts.get("yes", 0), counts.get("after-strengthening", 0), counts.get("no", 0), counts.get("obsolete", 0))
 nfix = sum(1 for l in log if l.split(" ", 1)[1].startswith("fix:"))
 nknown = sum(1 for f in kf if f["status"] == "known")
 gen["status"] = "%d `fix:` commits in /repo, %d known findings, %d seeded changes" % (nfix, nknown, sum(counts.values()))
